@@ -40,9 +40,14 @@ def run(chk):
         if not quick:
             extra = opdrivers.schedules_for(scen, 3, rnd, limit=len(scheds) + 1500, nsteps=base['nsteps'])
             scheds = scheds + [s for s in extra if len(s) == 3]
-        out = tt.pmap(opdrivers.run_one_schedule, [(scen, s, chk.seed) for s in scheds])
-        nsched += len(out)
-        for o in out:
+        out = []
+        # in batches: the observed states of a batch are folded into the set of distinct states before the next one runs
+        # (all schedules of the thorough tier at once took 9 GB)
+        for b0 in range(0, len(scheds), 3000):
+          batch = tt.pmap(opdrivers.run_one_schedule, [(scen, s, chk.seed) for s in scheds[b0:b0 + 3000]])
+          nsched += len(batch)
+          for o in batch:
+            out.append({'events': o['events'], 'preempts': o['preempts'], 'trace': o['trace'] if len(out) < 3 else None})
             chk.traces += 1
             chk.evaluations += o['nsteps']
             if o['hung']:
@@ -81,8 +86,8 @@ def run(chk):
             if rej:
                 chk.notes.append('DRIFT: %d of %d distinct traces of %s rejected by PutOpsTrace' % (len(rej), len(tr), scen))
         if len(chk.samples) < 3:
-            chk.sample({'scenario': scen, 'schedule (pre-emptions: step -> process)': out[-1]['preempts'],
-                        'operations': out[-1]['trace'][:60], 'verdict': 'all observed states satisfy the invariants'})
+            chk.sample({'scenario': scen, 'schedule (pre-emptions: step -> process)': out[0]['preempts'],
+                        'operations': (out[0]['trace'] or [])[:60], 'verdict': 'all observed states satisfy the invariants'})
     chk.stage_stats['schedules'] = {'schedules': nsched, 'distinct_states': len(items)}
     opcommon.judge(chk, 'sched', items, lambda it: it['obs'], lambda it: it['scen'],
                    lambda it: ALL + (['FinalStateIsC01', 'AllSucceed'] if it['final'] else []),
